@@ -302,9 +302,23 @@ def opReuseParse (args : List String) (impl : String) : Result :=
         match c.parseDocs mode docs, c.parseDocs mode [docs.getLast!] with
         | some rs, some [fresh] =>
           s!"{evsToString rs.getLast!.1}|{evsToString fresh.1}|{"/".intercalate (rs.map (·.2))}"
-        | _, _ => "err"
+        | _, _ =>
+          -- the first document the REUSED parser refuses: does a new parser take it?
+          match (List.range docs.length).find? (fun i => (c.parseDocs mode (docs.take (i + 1))).isNone) with
+          | some i =>
+            if (c.parseDocs mode ((docs.drop i).take 1)).isSome then s!"refused@{i}:a-new-parser-accepts-it" else "err"
+          | none => "err"
+      -- mode W = Write(doc) + the end-of-input hook: a history the public API offers only when no
+      -- document ends in a pending top-level number (JSON: `Parser.finalize` is not exported; the
+      -- exported entry points either reset the parser (`Parse`) or create a new one (`ParseReader`))
+      let publicHistory := !(fmt == "json" && mode == "W" &&
+        docs.dropLast.any (fun d => match d.getLast? with
+          | some b => (0x30 ≤ b.toNat && b.toNat ≤ 0x39) || b == 0x2e || b == 0x65 || b == 0x45 || b == 0x2b || b == 0x2d
+          | none => false))
       let fails :=
         if isBad impl then [s!"C17 {fmt}-parser-{impl}"] else
+        if impl.startsWith "refused@" then
+          (if publicHistory then [s!"C17 {fmt}-reused-parser-refuses-a-document-a-new-parser-accepts {impl}"] else []) else
         match impl.splitOn "|" with
         | [a, b, ds] =>
           (if a != b then [s!"C17 {fmt}-reused-parser-reports-different-events"] else []) ++
@@ -344,7 +358,12 @@ def opAlias (args : List String) (impl : String) : Result :=
       let model := if pv == "ok" then "same" else "err"
       let fails :=
         if impl.startsWith "changed" then
-          [s!"C15 {fmt}-stored-value-changed-by-buffer-reuse {(impl.splitOn ":").getD 1 ""}"]
+          [s!"C15 {fmt}-stored-value-changed-by-buffer-reuse {(impl.splitOn ":").getD 1 ""}",
+           -- the same observation in the terms of C13 (the target holds the document's value) and
+           -- C10 (a by-reference string / key is the consumer's to copy: the value it stands for
+           -- is the bytes at the time of the call)
+           s!"C13 {fmt}-stored-value-is-not-the-documents-value-once-the-input-buffer-is-reused {(impl.splitOn ":").getD 1 ""}",
+           s!"C10 {fmt}-by-reference-string-kept-without-copy {(impl.splitOn ":").getD 1 ""}"]
         else if isBad impl then [s!"C15 {fmt}-unfold-{impl}"] else []
       { model := some model, fails := fails }
     | _, _ => noModel
